@@ -216,6 +216,18 @@ def load_findings():
         return json.load(f)["findings"]
 
 
+def pinned_reproducers(pid):
+    """Pinned reproducers of OPEN findings of this property: they are run on every invocation."""
+    out = []
+    for f in load_findings():
+        if f.get("status") == "open" and pid in f.get("properties", []):
+            for k, r in enumerate(f.get("reproducers", [f["reproducer"]] if "reproducer" in f else [])):
+                r = dict(r)
+                r["id"] = "kf-%s-%d" % (f["id"], k)
+                out.append(r)
+    return out
+
+
 def _match_value(pat, val):
     if isinstance(pat, str) and pat.startswith("re:"):
         return val is not None and re.search(pat[3:], str(val)) is not None
